@@ -272,6 +272,29 @@ pub struct FaultPlan {
     pub wr_err_after_bytes: Option<u64>,
 }
 
+/// One letter of an enumerated sequence of external events (family C13X): the simulator performs the
+/// letters in order, each one once the system has gone quiet (no runnable task, nothing on the wire), or -
+/// `eager` - right behind the previous letter with no task poll in between. A letter that is not enabled when
+/// its turn comes (sender busy / idle, nothing owed, already stalled) is skipped.
+#[derive(Clone, Copy, Debug, PartialEq, Eq)]
+pub enum ExtAct {
+    /// start the next operation of sender i
+    Go(usize),
+    /// cancel (drop) the pending operation of sender i
+    Cancel(usize),
+    /// the peer writes the oldest acknowledgement it owes
+    Ack,
+    /// the transport stops / resumes accepting the endpoint's writes (write back-pressure on / off)
+    StallOn,
+    StallOff,
+}
+
+#[derive(Clone, Copy, Debug, PartialEq, Eq)]
+pub struct ExtStep {
+    pub act: ExtAct,
+    pub eager: bool,
+}
+
 /// How a run ends after the scripted part.
 #[derive(Clone, Copy, Debug, PartialEq, Eq)]
 pub enum Ending {
@@ -325,4 +348,6 @@ pub struct Plan {
     pub gate_order: Vec<u32>,
     /// enumerated immediate / deferred mix (C04X): handler gate k completes without parking iff mask[k]
     pub immediate_mask: Vec<bool>,
+    /// enumerated sequence of external events (C13X); empty = external events are drawn
+    pub ext_script: Vec<ExtStep>,
 }
